@@ -1,4 +1,5 @@
 import Usual.C04.Parse
+import UsualProofs.C04.Bracket
 /-! Helper lemmas for C04: the parser model inverts the ERE renderer on the bracket-free
 fragment `wfE`.  Two layers: the lexer maps the rendered text to the token list `toksE`, and
 the token parser maps `toksE r` back to (the case-folded) `r`. -/
@@ -20,7 +21,7 @@ def toksE (fl : PFlags) : Re → List Tok
   | .empty => []
   | .chr c => [.chr (foldc fl c)]
   | .any => [.dot]
-  | .cls _ => [.err .ebrack]
+  | .cls bm => [.cls (normCls fl bm)]
   | .bol => [.caret]
   | .eol => [.dollar]
   | .cat a b => toksE fl a ++ toksE fl b
@@ -313,6 +314,18 @@ theorem lexes_quant (fl : PFlags) (m : Nat) (n : Option Nat) (hok : countOk m n 
         have := lexes_count fl m n hok h
         simpa using this
 
+/-- a bracket expression -/
+theorem lexes_cls (fl : PFlags) (bm : Nat) (h256 : bm < 2 ^ 256) (h0 : bm.testBit 0 = false)
+    {rest : List UInt8} {ts : List Tok} (h : Lexes fl rest ts) :
+    Lexes fl (renderCls bm ++ rest) (.cls (normCls fl bm) :: ts) := by
+  intro fuel hf
+  cases fuel with
+  | zero => simp [renderCls] at hf
+  | succ f =>
+    have hp := parseClass_clsBody fl bm h256 h0 rest
+    have hrest := h f (by simp [renderCls] at hf; omega)
+    simp [renderCls, lexE, hp, hrest]
+
 /-- the lexer maps the rendered text of a well-formed tree to its tokens -/
 theorem lexes_render (fl : PFlags) : ∀ (r : Re) (lvl : Nat), wfL lvl r = true →
     ∀ {rest : List UInt8} {ts : List Tok}, Lexes fl rest ts →
@@ -322,7 +335,10 @@ theorem lexes_render (fl : PFlags) : ∀ (r : Re) (lvl : Nat), wfL lvl r = true 
   | empty => intro lvl _ rest ts h; simpa [renderERE, toksE] using h
   | chr c => intro lvl _ rest ts h; simpa [toksE] using lexes_chr fl c h
   | any => intro lvl _ rest ts h; simpa [renderERE, toksE] using lexes_dot fl h
-  | cls bm => intro lvl hwf; simp [wfL] at hwf
+  | cls bm =>
+    intro lvl hwf rest ts h
+    simp only [wfL, Bool.and_eq_true, decide_eq_true_eq, Bool.not_eq_true'] at hwf
+    simpa [renderERE, toksE] using lexes_cls fl bm hwf.1 hwf.2 h
   | bol => intro lvl _ rest ts h; simpa [renderERE, toksE] using lexes_caret fl h
   | eol => intro lvl _ rest ts h; simpa [renderERE, toksE] using lexes_dollar fl h
   | cat a b iha ihb =>
@@ -466,7 +482,12 @@ theorem parse_main (fl : PFlags) : ∀ r : Re,
   intro r
   induction r with
   | empty => exact ⟨fun h => by simp [wfL] at h, fun h => by simp [wfL] at h⟩
-  | cls bm => exact ⟨fun h => by simp [wfL] at h, fun h => by simp [wfL] at h⟩
+  | cls bm =>
+    have A : ∀ st : PSt, ∃ st', StepsTo fl (.cls bm) st st' ∧ RelA fl (.cls bm) st st' :=
+      leaf_step fl (.cls bm) (.cls (normCls fl bm)) (.cls (normCls fl bm)) rfl rfl rfl rfl (fun st => rfl)
+    refine ⟨fun _ st _ => A st, fun _ st _ hcur => ?_⟩
+    obtain ⟨st', h1, h2⟩ := A st
+    exact ⟨st', h1, relB_of_relA hcur rfl h2⟩
   | chr c =>
     have A : ∀ st : PSt, ∃ st', StepsTo fl (.chr c) st st' ∧ RelA fl (.chr c) st st' :=
       leaf_step fl (.chr c) (.chr (foldc fl c)) (.chr (foldc fl c)) rfl rfl rfl rfl (fun st => rfl)
@@ -618,7 +639,7 @@ theorem render_ne_nil : ∀ (r : Re) (lvl : Nat), lvl ≤ 2 → wfL lvl r = true
   | empty => intro lvl h hwf; simp [wfL] at hwf; omega
   | chr c => intro lvl _ _; simp only [renderERE]; split <;> simp
   | any => intro lvl _ _; simp [renderERE]
-  | cls bm => intro lvl _ _; simp [renderERE]
+  | cls bm => intro lvl _ _; simp [renderERE, renderCls]
   | bol => intro lvl _ _; simp [renderERE]
   | eol => intro lvl _ _; simp [renderERE]
   | cat a b iha _ =>
@@ -657,5 +678,32 @@ theorem parseERE_renderERE (fl : PFlags) (r : Re) (h : wfE r = true) :
   have hstack : st'.stack.isEmpty = true := by rw [b1]; rfl
   simp only [parseERE, hne, hlex, parseToks, hrun, pfinish, hstack, hbad]
   simp [b4, b2, mkAlt_branches]
+
+/-- without compile flags nothing is folded: the stored tree is the tree itself -/
+theorem foldRe_noflags : ∀ (r : Re) (lvl : Nat), wfL lvl r = true → foldRe {} r = r := by
+  intro r
+  induction r with
+  | chr c => intro lvl _; simp [foldRe, foldc]
+  | cls bm =>
+    intro lvl h
+    simp only [wfL, Bool.and_eq_true, decide_eq_true_eq, Bool.not_eq_true'] at h
+    simp only [foldRe, normCls_noflags bm h.1 h.2]
+  | cat a b iha ihb =>
+    intro lvl h
+    simp only [wfL, Bool.and_eq_true] at h
+    simp only [foldRe, iha 0 h.1.2, ihb 1 h.2]
+  | alt a b iha ihb =>
+    intro lvl h
+    simp only [wfL, Bool.and_eq_true] at h
+    simp only [foldRe, iha 1 h.1.2, ihb 2 h.2]
+  | rep r m n ih =>
+    intro lvl h
+    simp only [wfL, Bool.and_eq_true] at h
+    simp only [foldRe, ih 0 h.1.2]
+  | group r ih =>
+    intro lvl h
+    simp only [wfL] at h
+    simp only [foldRe, ih 3 h]
+  | _ => intro lvl _; rfl
 
 end Usual.C04
